@@ -9,7 +9,7 @@
 //   op add_op    g preset       (0 = null pointer)
 //   op init      g stream cancel_at allocfail_at eio_at_read
 //   op shoot     g stream slot cancel_at
-//   op reset     g            | dump g (smart_dump + read-only accessors: must change nothing)
+//   op reset     g            | dump g (smart_dump + read-only accessors: must change nothing) | set_debug g 0/1
 //   op ga_put    nuc proc dataset cut     (install a gA dataset in SimFS; cut>=0: torn at byte cut)
 //   op ga_del    nuc proc
 //
@@ -357,6 +357,12 @@ Outcome run_proto(const Plan & plan, const RunCtx & ctx)
         outcome = "shot-failed";
       }
       if (outcome != "refused") last[gi] = ok ? "shot" : "shot-failed";
+    } else if (op.k == "set_debug") {
+      // not part of the configuration: allowed in every state, changes nothing but the traces (the getter check below
+      // verifies that the protocol state and the configuration are untouched)
+      try { g.set_debug(op.arg(1) != 0); } catch (std::exception & e) { violation(oi, "set-debug-threw", std::string("set_debug() threw: ") + e.what()); }
+      if (g.is_debug() != (op.arg(1) != 0)) violation(oi, "debug-flag-wrong", "is_debug() does not report what set_debug() was given");
+      tr.adds("set_debug");
     } else if (op.k == "dump") {
       // observers must be callable in every state and change nothing (the getter check below verifies that)
       std::ostringstream sink;
@@ -443,7 +449,8 @@ Op noise_op(Rng & r, int g)
   }
   if (d < 61) return mk("set_ver", {g}, {r.chance(0.5) ? "1.0.0" : ""});
   if (d < 65) return mk("add_op", {g, r.chance(0.3) ? 0 : r.range(1, mdl_single_presets())});
-  if (d < 67) return mk("dump", {g});
+  if (d < 66) return mk("dump", {g});
+  if (d < 67) return mk("set_debug", {g, (i64)r.below(2)});
   if (d < 78) return mk("init", {g, (i64)r.below(1000), -1, -1, -1});
   if (d < 90) return mk("shoot", {g, (i64)r.below(8), (i64)r.below(NS), -1});
   if (d < 95) return mk("reset", {g});
